@@ -1,94 +1,174 @@
 (* C04: ABF stores the mean force per bin and applies its smoothed negative.
    Statements only; proofs are in ABFProofs.v (real-number instance of the model ABFModel.v) and
-   ABFWitness.v (counterexamples, computed at exact rationals with the same generic model). *)
+   ABFWitness.v (concrete runs, computed at exact rationals with the same generic model).
+   The model mirrors the tree WITH the fix commits of branch fix-C04 (props/C04/NOTES.md): on the tree
+   without them the first version of this slice proved `_refuted` theorems for T1 and T3; the
+   inputs of those witnesses are the Examples E1, E3, E4 at the end of this file and are replayed on the
+   C++ at every run of the check (round 2: fix-C04-2, E5 and E7). *)
 From Coq Require Import ZArith QArith List Bool Reals Lia.
 From CV Require Import Base.Num Base.RNum C04.ABFModel C04.ABFProofs C04.ABFWitness.
 Import ListNotations.
 
 (* ---- T1.  After ANY history, in EVERY bin b the stored count is the number of attributed samples in b
    and the stored gradient sum is minus the sum of their forces.  The attributed samples (ABFModel.v,
-   [attributed]) are, for every step whose force the engine delivers at a regular step of the run:
+   [attributed]) are, for every step whose force the engine delivers at a regular step of the run
+   (or at any step with stepZeroData):
    (bin occupied by the variables at the step the force was exerted,
-    total force measured for that step - the force Colvars itself was applying at that step
-    [the ABF force; every Colvars force for a variable with subtractAppliedForce]),
-   in both timing conventions, with other biases, run boundaries, values inside and outside the grid.
-
-   FULL STATEMENT (false of the code, see the two _refuted theorems below):
-     forall c h b, wf_cfg c ->
-       s_cnt (fst (abf_run Rops c h)) b = cnt_of b (attributed Rops c (trace_of Rops c h)) /\
-       forall k, k < c_nd c -> vget Rops (s_sum (fst (abf_run Rops c h)) b) k
-                               = - fsum_of Rops k b (attributed Rops c (trace_of Rops c h)).
-   It holds under the side condition [clean_io] on every step of a lagged-convention trace:
-   no variable has the value exactly 0, and no variable with subtractAppliedForce has a measured total
-   force of exactly 0. *)
-Theorem C04_abf_state_is_sample_sum_partial :
-  forall (c : @abf_cfg R) (h : list (@abf_in R)) (b : idx),
-    wf_cfg c ->
-    (c_same_step c = false -> Forall (clean_io c) (trace_of Rops c h)) ->
+    force measured on the variable for that step - the force Colvars itself was applying at that step
+    [the ABF force AS APPLIED, i.e. times the scaledBiasingForce factor, and the Jacobian compensation of
+    hideJacobian; every Colvars force for a variable with subtractAppliedForce; nothing for a variable that
+    hands no force to the atoms]
+    + the Jacobian term unless hideJacobian),
+   in both timing conventions, with other biases, run boundaries, values inside and outside the grid,
+   one or more variables.  [wf_cfg]: stepZeroData only with same-step forces (the code rejects it
+   otherwise).  [apply_const a h]: applyBias has the same value a at every step, i.e. it is a configuration
+   option as in the property text (run-time switching: T1s below).
+   No other side condition: the `jac_ok` of the previous version went with fix 318ea9be. *)
+Theorem C04_abf_state_is_sample_sum :
+  forall (c : @abf_cfg R) (h : list (@abf_in R)) (b : idx) (a : bool),
+    wf_cfg c -> apply_const a h ->
     s_cnt (fst (abf_run Rops c h)) b = cnt_of b (attributed Rops c (trace_of Rops c h)) /\
     forall k, (k < c_nd c)%nat ->
       vget Rops (s_sum (fst (abf_run Rops c h)) b) k = (- fsum_of Rops k b (attributed Rops c (trace_of Rops c h)))%R.
-Proof. exact abf_state_is_sample_sum_partial. Qed.
-Print Assumptions C04_abf_state_is_sample_sum_partial.
+Proof. exact abf_state_is_sample_sum_const. Qed.
+Print Assumptions C04_abf_state_is_sample_sum.
 
-(* W1: subtractAppliedForce + lagged forces + measured total force exactly 0 (engine -1, restraint +1):
-   the stored sum in bin [0] is -2, minus the sum of the attributed samples (-1 and 2) is -1. *)
-Theorem C04_abf_state_is_sample_sum_refuted :
+(* the same for the whole vector stored in the bin *)
+Theorem C04_abf_sum_vector :
+  forall (c : @abf_cfg R) (h : list (@abf_in R)) (b : idx) (a : bool),
+    wf_cfg c -> apply_const a h ->
+    s_sum (fst (abf_run Rops c h)) b
+    = vbuild (c_nd c) (fun k => (- fsum_of Rops k b (attributed Rops c (trace_of Rops c h)))%R).
+Proof. exact abf_sum_vector_const. Qed.
+Print Assumptions C04_abf_sum_vector.
+
+(* ---- T1'.  The property as worded: the stored free-energy gradient of every bin (what
+   colvar_grid_gradient::value_output writes to the state and .grad files, [grad_out] = sum / count) is
+   MINUS THE ARITHMETIC MEAN of the forces of the samples attributed to the bin, the stored count is their
+   number, and the gradient of a bin without samples is 0. *)
+Theorem C04_stored_gradient_is_minus_mean :
+  forall (c : @abf_cfg R) (h : list (@abf_in R)) (b : idx) (k : nat) (a : bool),
+    wf_cfg c -> apply_const a h -> (k < c_nd c)%nat ->
+    let s := fst (abf_run Rops c h) in
+    let S := attributed Rops c (trace_of Rops c h) in
+    s_cnt s b = cnt_of b S /\
+    ((0 < cnt_of b S)%Z -> grad_out Rops (s_cnt s) (s_sum s) b k = (- mean_force S b k)%R) /\
+    (cnt_of b S = 0%Z -> grad_out Rops (s_cnt s) (s_sum s) b k = 0%R).
+Proof. exact stored_gradient_is_minus_mean_const. Qed.
+Print Assumptions C04_stored_gradient_is_minus_mean.
+
+(* ---- T1i.  inputPrefix (a list of prefixes, one data set each, added in order): a run started from data read
+   from .count/.grad files ends with count = counts read + number of attributed samples,
+   sum = sum over the data sets of gradient read * count read - sum of the sample forces. *)
+Theorem C04_abf_state_with_input_data :
+  forall (c : @abf_cfg R) (l : list (@dataset R)) (h : list (@abf_in R)) (b : idx) (a : bool),
+    wf_cfg c -> apply_const a h ->
+    let s0 := abf_init_data Rops c l in
+    let r := abf_run_data Rops c l h in
+    let S := attributed Rops c (trace_from Rops c s0 h) in
+    s_cnt (fst r) b = (data_cnt l b + cnt_of b S)%Z /\
+    forall k, (k < c_nd c)%nat ->
+      vget Rops (s_sum (fst r) b) k = (data_sum l b k - fsum_of Rops k b S)%R.
+Proof. exact abf_state_with_input_data_const. Qed.
+Print Assumptions C04_abf_state_with_input_data.
+
+(* ---- T1s.  applyBias switched at run time (`cv bias <name> set apply_force 0|1`: [i_apply] differs from
+   step to step).  FULL STATEMENT (false of the code, see _refuted): T1 for every history.
+   It holds under [steady c a h]: with hideJacobian AND lagged forces the switch is not used; without
+   hideJacobian, or with same-step forces, applyBias may change at every step (Examples below). *)
+Theorem C04_abf_state_is_sample_sum_switching_partial :
+  forall (c : @abf_cfg R) (h : list (@abf_in R)) (b : idx) (a : bool),
+    wf_cfg c -> steady c a h ->
+    s_cnt (fst (abf_run Rops c h)) b = cnt_of b (attributed Rops c (trace_of Rops c h)) /\
+    forall k, (k < c_nd c)%nat ->
+      vget Rops (s_sum (fst (abf_run Rops c h)) b) k = (- fsum_of Rops k b (attributed Rops c (trace_of Rops c h)))%R.
+Proof. exact abf_state_is_sample_sum. Qed.
+Print Assumptions C04_abf_state_is_sample_sum_switching_partial.
+
+(* W7: hideJacobian, lagged forces, Jacobian force 3, engine force 1, applyBias on at step 0 and switched off
+   before step 1: the stored sum of bin [0] is +1 (samples -2 and 1), minus the attributed samples (1, 1) is -2. *)
+Theorem C04_abf_state_is_sample_sum_switching_refuted :
   exists (c : @abf_cfg Q) (h : list (@abf_in Q)) (b : idx),
-    c_szd c = false /\
+    c_szd c = false /\ c_hidej c = true /\ c_same_step c = false /\
     stored_cnt c h b = spec_cnt c h b /\
     Qeq_bool (stored_sum c h b 0) (spec_sum c h b 0) = false.
-Proof. exists w1_cfg, w1_hist, [0%Z]. vm_compute. repeat split; reflexivity. Qed.
-Print Assumptions C04_abf_state_is_sample_sum_refuted.
-
-(* W2: lagged forces + value of the variable exactly 0 while Colvars applies a force to it: the force is
-   not handed to the atoms, the stored sum in bin [1] is -1, minus the attributed sample is -2. *)
-Theorem C04_abf_state_is_sample_sum_refuted_value_zero :
-  exists (c : @abf_cfg Q) (h : list (@abf_in Q)) (b : idx),
-    c_szd c = false /\ c_subtract c = [false] /\
-    stored_cnt c h b = spec_cnt c h b /\
-    Qeq_bool (stored_sum c h b 0) (spec_sum c h b 0) = false.
-Proof. exists w2_cfg, w2_hist, [1%Z]. vm_compute. repeat split; reflexivity. Qed.
-Print Assumptions C04_abf_state_is_sample_sum_refuted_value_zero.
+Proof. exists w7_cfg, w7_hist, [0%Z]. vm_compute. repeat split; reflexivity. Qed.
+Print Assumptions C04_abf_state_is_sample_sum_switching_refuted.
 
 (* ---- T2.  The ABF force handed to variable k at the step that follows any history is
    ramp(count b) * (sum b / count b) for the current bin b (count and sum AFTER this step's accumulation),
-   with ramp the documented 0 / linear / 1 function of minSamples and fullSamples; minus the grid average
-   of sum/count for one periodic variable; clipped to +-maxForce; and 0 when b is outside the grid or
-   applyBias is off. *)
+   with ramp the documented 0 / linear / 1 function of minSamples and fullSamples; minus, for one periodic
+   variable, the grid average of these ramped estimates; clipped to +-maxForce; and 0 when b is outside the
+   grid or applyBias is off. *)
 Theorem C04_applied_force :
   forall (c : @abf_cfg R) (h : list (@abf_in R)) (i : @abf_in R) (k : nat),
     (k < c_nd c)%nat -> (0 <= c_min c < c_full c)%Z ->
     (c_cap c = true -> (0 <= vget Rops (c_maxf c) k)%R) ->
     let s := fst (abf_run Rops c h) in
     let s1 := fst (abf_step Rops c s i) in
-    vget Rops (o_fabf (snd (abf_step Rops c s i))) k = spec_force c (s_cnt s1) (s_sum s1) (bins Rops c (i_x i)) k.
+    vget Rops (o_fabf (snd (abf_step Rops c s i))) k = spec_force c (i_apply i) (s_cnt s1) (s_sum s1) (bins Rops c (i_x i)) k.
 Proof. exact applied_force_after_history. Qed.
 Print Assumptions C04_applied_force.
 
-(* ---- T3.  One periodic variable: the forces of all the bins sum to zero.
-   FULL STATEMENT (false of the code, see _refuted): without the hypothesis on the counts.
-   It holds when every bin is either fully sampled (count >= fullSamples) or empty. *)
-Theorem C04_zero_mean_periodic_partial :
-  forall (c : @abf_cfg R) (cnt : idx -> Z) (sum : idx -> @vec R),
-    c_nd c = 1%nat -> bget (c_periodic c) 0 = true -> c_apply c = true -> c_cap c = false ->
-    (forall i, (0 <= i < zget (c_nx c) 0)%Z -> (c_full c <= cnt [i])%Z \/ cnt [i] = 0%Z) ->
-    (0 <= c_min c < c_full c)%Z ->
-    gsum Rops (map (fun i => spec_force c cnt sum [i] 0) (zrange (zget (c_nx c) 0))) = 0%R.
-Proof. exact zero_mean_periodic_partial. Qed.
-Print Assumptions C04_zero_mean_periodic_partial.
+(* ---- T2'.  T1 and T2 together, without reference to the stored arrays: for every history h and next
+   step i, the ABF force of that step is [spec_force_samples] of the samples attributed in h ++ [i]:
+   ramp(N_b) * (- arithmetic mean of the N_b sample forces of the current bin b), minus the grid average of
+   the same quantity for one periodic variable, clipped to +-maxForce, 0 outside the grid / applyBias off. *)
+Theorem C04_applied_force_is_smoothed_negative_mean :
+  forall (c : @abf_cfg R) (h : list (@abf_in R)) (i : @abf_in R) (k : nat) (a : bool),
+    wf_cfg c -> apply_const a (h ++ [i]) -> (k < c_nd c)%nat -> (0 <= c_min c < c_full c)%Z ->
+    (c_cap c = true -> (0 <= vget Rops (c_maxf c) k)%R) ->
+    vget Rops (o_fabf (snd (abf_step Rops c (fst (abf_run Rops c h)) i))) k
+    = spec_force_samples c a (attributed Rops c (trace_of Rops c (h ++ [i]))) (bins Rops c (i_x i)) k.
+Proof. exact applied_force_is_smoothed_negative_mean_const. Qed.
+Print Assumptions C04_applied_force_is_smoothed_negative_mean.
 
-(* W3: 2 bins, minSamples 1, fullSamples 2, one sample (force 2) in bin [0]: after that history the force
-   is 1 in bin [0] and 1 in bin [1] (which has no sample): sum 2, and a bias where the ramp is 0. *)
-Theorem C04_zero_mean_periodic_refuted :
-  stored_cnt w3_cfg w3_hist [0%Z] = 1%Z /\ stored_cnt w3_cfg w3_hist [1%Z] = 0%Z /\
-  Qeq_bool (w3_force 0) 1 = true /\ Qeq_bool (w3_force 1) 1 = true /\
-  Qeq_bool (w3_force 0 + w3_force 1) 0 = false.
-Proof. exact w3_refutes. Qed.
-Print Assumptions C04_zero_mean_periodic_refuted.
+(* what the variable receives from the bias is that force times the factor of the scaling grid at the current
+   bin when scaledBiasingForce is on (1 otherwise) *)
+Theorem C04_applied_force_scaled :
+  forall (c : @abf_cfg R) (s : @abf_state R) (i : @abf_in R) (k : nat),
+    (k < c_nd c)%nat ->
+    vget Rops (o_fapp (snd (abf_step Rops c s i))) k
+    = (vget Rops (o_fabf (snd (abf_step Rops c s i))) k * sfac Rops c (bins Rops c (i_x i)))%R.
+Proof. exact applied_force_scaled. Qed.
+Print Assumptions C04_applied_force_scaled.
+
+Theorem C04_no_force_outside_grid :
+  forall (c : @abf_cfg R) (s : @abf_state R) (i : @abf_in R) (k : nat),
+    i_apply i && index_ok c (bins Rops c (i_x i)) = false ->
+    vget Rops (o_fabf (snd (abf_step Rops c s i))) k = 0%R.
+Proof. exact no_force_outside. Qed.
+Print Assumptions C04_no_force_outside_grid.
+
+(* ---- T3.  One periodic variable: the forces of all the bins sum to zero, for EVERY content of the grid
+   (no hypothesis on the counts: also while bins are between minSamples and fullSamples), and for the
+   samples of every history. *)
+Theorem C04_zero_mean_periodic :
+  forall (c : @abf_cfg R) (cnt : idx -> Z) (sum : idx -> @vec R),
+    c_nd c = 1%nat -> bget (c_periodic c) 0 = true -> c_cap c = false ->
+    gsum Rops (map (fun i => spec_force c true cnt sum [i] 0) (zrange (zget (c_nx c) 0))) = 0%R.
+Proof. exact zero_mean_periodic. Qed.
+Print Assumptions C04_zero_mean_periodic.
+
+Theorem C04_zero_mean_periodic_samples :
+  forall (c : @abf_cfg R) (S : list (idx * @vec R)),
+    c_nd c = 1%nat -> bget (c_periodic c) 0 = true -> c_cap c = false ->
+    gsum Rops (map (fun i => spec_force_samples c true S [i] 0) (zrange (zget (c_nx c) 0))) = 0%R.
+Proof. exact zero_mean_periodic_samples. Qed.
+Print Assumptions C04_zero_mean_periodic_samples.
+
+(* the documented "no bias below minSamples": while no bin has more than minSamples samples the force is 0
+   in every bin, periodic or not *)
+Theorem C04_no_force_below_min :
+  forall (c : @abf_cfg R) (a : bool) (cnt : idx -> Z) (sum : idx -> @vec R) (b : idx) (k : nat),
+    (0 <= c_min c < c_full c)%Z -> (c_cap c = true -> (0 <= vget Rops (c_maxf c) k)%R) ->
+    (forall b', (0 <= cnt b' <= c_min c)%Z) ->
+    spec_force c a cnt sum b k = 0%R.
+Proof. exact no_force_below_min. Qed.
+Print Assumptions C04_no_force_below_min.
 
 (* ---- T4.  The repeated step of a run boundary adds no sample (stepZeroData off): counts and sums of
-   every bin are unchanged, from any state in which a step was already made. *)
+   every bin are unchanged, from any state in which a step was already made; and on histories. *)
 Theorem C04_run_boundary :
   forall (c : @abf_cfg R) (s : @abf_state R) (i : @abf_in R),
     c_szd c = false -> i_boundary i = true -> s_started s = true ->
@@ -96,21 +176,84 @@ Theorem C04_run_boundary :
 Proof. exact run_boundary_no_sample. Qed.
 Print Assumptions C04_run_boundary.
 
+Theorem C04_run_boundary_history :
+  forall (c : @abf_cfg R) (h : list (@abf_in R)) (i : @abf_in R),
+    c_szd c = false -> i_boundary i = true -> h <> [] ->
+    s_cnt (fst (abf_run Rops c (h ++ [i]))) = s_cnt (fst (abf_run Rops c h)) /\
+    s_sum (fst (abf_run Rops c (h ++ [i]))) = s_sum (fst (abf_run Rops c h)).
+Proof. exact run_boundary_history. Qed.
+Print Assumptions C04_run_boundary_history.
+
 (* ---- non-vacuity *)
 
-(* premises of T1 are satisfiable in the lagged convention: a two-step history with a clean trace *)
-Example C04_example_clean_trace :
-  let c := @mkCfg R 1 [0%R] [1%R] [2%Z] [false] 2 1 false true false [0%R] false false [false] in
-  let h := [@mkIn R [(1/2)%R] [1%R] [0%R] false; @mkIn R [(1/2)%R] [0%R] [0%R] false] in
-  wf_cfg c /\ (c_same_step c = false -> Forall (clean_io c) (trace_of Rops c h)) /\ length (trace_of Rops c h) = 2%nat.
-Proof. exact example_clean_trace. Qed.
+(* wf_cfg and steady hold for a lagged configuration with hideJacobian, with a two-step history in which applyBias
+   is on; apply_const for that history; steady holds for EVERY history (any switching) without hideJacobian or with
+   same-step forces *)
+Example C04_example_wf :
+  let c := @mkCfg R 1 [0%R] [1%R] [2%Z] [false] 2 1 true false [0%R] false false [false] true [false] true (fun _ => (1/2)%R) in
+  let h := [@mkIn R [(1/2)%R] [1%R] [0%R] [3%R] false true; @mkIn R [(1/2)%R] [0%R] [0%R] [3%R] false true] in
+  wf_cfg c /\ steady c true h /\ c_hidej c = true /\ c_same_step c = false /\ length (trace_of Rops c h) = 2%nat.
+Proof. exact example_wf_lagged. Qed.
+Example C04_example_apply_const :
+  apply_const true [@mkIn R [(1/2)%R] [1%R] [0%R] [3%R] false true; @mkIn R [(1/2)%R] [0%R] [0%R] [3%R] false true].
+Proof. exact example_apply_const. Qed.
+Example C04_example_steady_nohide : forall (c : @abf_cfg R) a h, c_hidej c = false -> steady c a h.
+Proof. exact steady_nohide. Qed.
+Example C04_example_steady_same : forall (c : @abf_cfg R) a h, c_same_step c = true -> steady c a h.
+Proof. exact steady_same. Qed.
 
 (* T4's premise s_started = true holds after any step *)
 Example C04_example_started : forall (c : @abf_cfg R) s i, s_started (fst (abf_step Rops c s i)) = true.
 Proof. exact started_after_step. Qed.
 
-(* the witnesses are runs in which the samples are really taken (same counts on both sides) *)
-Example C04_example_witness_counts :
-  stored_cnt w1_cfg w1_hist [0%Z] = 2%Z /\ spec_cnt w1_cfg w1_hist [0%Z] = 2%Z /\
-  stored_cnt w2_cfg w2_hist [1%Z] = 1%Z /\ spec_cnt w2_cfg w2_hist [1%Z] = 1%Z.
-Proof. vm_compute. repeat split; reflexivity. Qed.
+(* runs in which samples are really taken and forces really applied (exact rationals):
+   E1/E2: lagged, subtractAppliedForce, measured total force exactly zero (engine force cancels a restraint
+          / cancels the ABF force itself): 2 resp. 3 samples, stored sum = minus their sum;
+   E3:    periodic grid at count = minSamples: no force in either bin;  E3b: during the ramp the two bins get
+          -5/4 and +5/4;
+   E4:    hideJacobian with a non-zero Jacobian force, same-step and lagged: the samples are the engine
+          force 1 and the variable receives ABF force - fj;
+   E6:    scaledBiasingForce 1/2, lagged: ABF force -2, applied -1, every sample is the engine force 2;
+   E5:    hideJacobian, lagged, nothing applied to the variable: samples are the engine force 1, applied force 0;
+   E7:    applyBias switched off and on again at run time, lagged: five samples of 2. *)
+Example C04_example_E1 :
+  stored_cnt e1_cfg e1_hist [0%Z] = 2%Z /\ spec_cnt e1_cfg e1_hist [0%Z] = 2%Z /\
+  Qeq_bool (stored_sum e1_cfg e1_hist [0%Z] 0) (-(1)) = true /\
+  Qeq_bool (spec_sum e1_cfg e1_hist [0%Z] 0) (-(1)) = true.
+Proof. exact e1_values. Qed.
+Example C04_example_E2 :
+  stored_cnt e2_cfg e2_hist [0%Z] = 3%Z /\ spec_cnt e2_cfg e2_hist [0%Z] = 3%Z /\
+  Qeq_bool (stored_sum e2_cfg e2_hist [0%Z] 0) (-(6#1)) = true /\
+  Qeq_bool (spec_sum e2_cfg e2_hist [0%Z] 0) (-(6#1)) = true.
+Proof. exact e2_values. Qed.
+Example C04_example_E3 :
+  stored_cnt e3_cfg e3_hist [0%Z] = 1%Z /\ stored_cnt e3_cfg e3_hist [1%Z] = 0%Z /\
+  Qeq_bool (force_in e3_cfg e3_hist 0) 0 = true /\ Qeq_bool (force_in e3_cfg e3_hist 1) 0 = true.
+Proof. exact e3_values. Qed.
+Example C04_example_E3b :
+  stored_cnt e3b_cfg e3b_hist [0%Z] = 4%Z /\ stored_cnt e3b_cfg e3b_hist [1%Z] = 2%Z /\
+  Qeq_bool (force_in e3b_cfg e3b_hist 0) (-(5#4)) = true /\ Qeq_bool (force_in e3b_cfg e3b_hist 1) (5#4) = true.
+Proof. exact e3b_values. Qed.
+Example C04_example_E4 :
+  stored_cnt e4_cfg e4_hist [0%Z] = 2%Z /\ Qeq_bool (stored_sum e4_cfg e4_hist [0%Z] 0) (-(2#1)) = true /\
+  Qeq_bool (spec_sum e4_cfg e4_hist [0%Z] 0) (-(2#1)) = true /\
+  Qeq_bool (last_applied e4_cfg e4_hist) (-(4#1)) = true /\
+  stored_cnt e4l_cfg e4l_hist [0%Z] = 3%Z /\ Qeq_bool (stored_sum e4l_cfg e4l_hist [0%Z] 0) (-(3#1)) = true.
+Proof. exact e4_values. Qed.
+Example C04_example_E6 :
+  stored_cnt e6_cfg e6_hist [0%Z] = 3%Z /\ spec_cnt e6_cfg e6_hist [0%Z] = 3%Z /\
+  Qeq_bool (stored_sum e6_cfg e6_hist [0%Z] 0) (-(6#1)) = true /\
+  Qeq_bool (spec_sum e6_cfg e6_hist [0%Z] 0) (-(6#1)) = true /\
+  Qeq_bool (last_applied e6_cfg e6_hist) (-(1)) = true.
+Proof. exact e6_values. Qed.
+Example C04_example_E5 :
+  stored_cnt e5_cfg e5_hist [0%Z] = 2%Z /\ spec_cnt e5_cfg e5_hist [0%Z] = 2%Z /\
+  Qeq_bool (stored_sum e5_cfg e5_hist [0%Z] 0) (-(2#1)) = true /\
+  Qeq_bool (spec_sum e5_cfg e5_hist [0%Z] 0) (-(2#1)) = true /\
+  Qeq_bool (last_applied e5_cfg e5_hist) 0 = true.
+Proof. exact e5_values. Qed.
+Example C04_example_E7 :
+  stored_cnt e7_cfg e7_hist [0%Z] = 5%Z /\ spec_cnt e7_cfg e7_hist [0%Z] = 5%Z /\
+  Qeq_bool (stored_sum e7_cfg e7_hist [0%Z] 0) (-(10#1)) = true /\
+  Qeq_bool (spec_sum e7_cfg e7_hist [0%Z] 0) (-(10#1)) = true.
+Proof. exact e7_values. Qed.
